@@ -241,7 +241,7 @@ def run_layout(pid, tier):
             res.add_drift(d, cid)
             if need_compile and obs["accepted"] and (d or cid % 97 == 0) and len(undecided) < 20000:
                 undecided.append(({"id": cid, "input": case["input"], "group": case.get("group"), "order": case.get("order"),
-                                   "sched": case.get("sched"), "accepted": case["accepted"], "oracle": {}}, obs, bool(d)))
+                                   "sched": case.get("sched"), "accepted": case["accepted"], "oracle": {"kf": oracle.get("kf", [])}}, obs, bool(d)))
 
             if pid == "C03":
                 if not oracle["plain"]:
@@ -349,7 +349,8 @@ def run_layout(pid, tier):
                 if pid in viol:
                     res.violation(f"{pid} is false on the observed behaviour (evaluated by TLC on the recorded registry, emitted items "
                                   f"and {tgt} rustc layouts; code and mirror {'disagree' if drifted else 'agree'} on this case)",
-                                  payload(case, obs, {"target": tgt}), None)
+                                  payload(case, obs, {"target": tgt}),
+                                  next((k for k in case["oracle"].get("kf", []) if k.startswith(pid + ":")), None))
 
     scan(pl)
     # ---- the same properties on the text-level family: every single-token mutation of three base texts that is still a module
